@@ -19,7 +19,7 @@ func init() {
 		Run:     run,
 		Rule: "cases: every byte string over all 256 byte values up to length 2 (quick) / 3 (thorough), every string over a 39-byte JSON alphabet up to length 4 / 5, " +
 			"every (grammar-state prefix x container context x next byte x suffix) product, generated valid texts with 5 mutants each, BOM variants and documents with a token at the 4096/8192 refill boundary; " +
-			"each is handed to 10 front-ends (fresh instances and pooled package functions) and the accept/reject decision compared with the reference recogniser R. " +
+			"each is handed to 10 front-ends (fresh instances and pooled package functions), to front-ends called with options that must not change what is accepted (NumConv arguments, Reuse, a second parse on the same gen.Parser) and to one long-lived instance of each parser, validator and tokenizer that sees the whole workload, and the accept/reject decision compared with the reference recogniser R. " +
 			"non-trivial: the input is non-empty and R's viable prefix extends beyond the first byte; distinct: enumerated strings are distinct by construction, all others are counted by digest",
 		Assumptions: []string{
 			"the reference recogniser R is RFC 8259 plus exactly the deviations named in C01 (checked against encoding/json.Valid on every BOM-less non-empty case: any disagreement makes the run inconclusive)",
